@@ -310,6 +310,26 @@ def work(item):
             r3 = Residual(solver, ctx, box=1, tol=TOL * 10)
             dec.decide('WeightedRotation overload %d with identity rotations = Yd A Yd (nested commutator sandwich), d=%d' % (which, d), polys,
                        'weighted-sandwich:%d:d=%d' % (which, d), dict(kind='weighted', d=d, which=which), res=r3)
+        # the weight operator may be the rotated vector itself: same result as with a separate copy (symbolic angles, small d)
+        if d <= (2 if tier == 'quick' else 3):
+            thA, deA = angle_tables(d)
+            thB = [T.var('w' + x.aux) if isinstance(x, Term) else x for x in thA]
+            deB = [T.var('w' + x.aux) if isinstance(x, Term) else x for x in deA]
+            for w_sep, w_al in ((0, 2), (1, 3)):
+                outs = []
+                for which in (w_sep, w_al):
+                    ps = h.run('h_weighted', [I(which), I(d), Buf('a', a), Buf('yd', a), Buf('thV', thA), Buf('delV', deA), Buf('thW', thB), Buf('delW', deB), Buf('o', n=n)])
+                    exstats.append(h.last_ex.stats)
+                    if len(ps) != 1 or ps[0].status != 'ok' or ps[0].ret != 0:
+                        out['broken'].append('h_weighted alias %d d=%d: %r' % (which, d, [(p.status, p.ret, p.info) for p in ps]))
+                        outs = None
+                        break
+                    oo = ps[0].out('o')
+                    outs.append([ctx.poly(v) for v in oo])
+                if outs:
+                    r3 = Residual(solver, ctx, box=1, tol=TOL * 10)
+                    dec.decide('x.WeightedRotation(V, x, W) (weight operator = the rotated vector itself, overload %d) = the same call with a separate copy as weight; all angles, phases and x symbolic, d=%d' % (w_sep, d),
+                               [p1 - p0 for p0, p1 in zip(*outs)], 'weighted-alias:%d:d=%d' % (w_sep, d), dict(kind='weighted-alias', d=d, which=w_al), res=r3)
         # the two overloads compose the same three maps: compare their logged primitive sequences
         thV, deV = angle_tables(d)
         thW = [T.var('w' + x.aux) if isinstance(x, Term) else x for x in thV]
@@ -409,6 +429,12 @@ def replay(chk, h, c):
                 return True, float('inf')
             ref = Q.conj().T @ A @ Q if which < 2 else Q @ A @ Q.conj().T
             worst = max(worst, np.abs(native_matrix(h, d, o['o']) - ref).max())
+        elif kind == 'weighted-alias':
+            thV, deV, thW, deW = (rng.uniform(-2, 2, n) for _ in range(4))
+            w_al = c['which']
+            ret, o0 = h.native('h_weighted', [I(w_al - 2), I(d), Buf('a', av), Buf('yd', av), Buf('thV', thV), Buf('delV', deV), Buf('thW', thW), Buf('delW', deW), Buf('o', n=n)])
+            ret, o1 = h.native('h_weighted', [I(w_al), I(d), Buf('a', av), Buf('yd', av), Buf('thV', thV), Buf('delV', deV), Buf('thW', thW), Buf('delW', deW), Buf('o', n=n)])
+            worst = max(worst, np.abs(np.array(o0['o']) - np.array(o1['o'])).max())
         elif kind == 'weighted':
             yv = np.zeros(n)
             for k in [0] + [d * l + l for l in range(1, d)]:
